@@ -25,6 +25,15 @@ def c01 (op : String) (j : Json) : Option (R Json) :=
         ("cells", listJ ratsJ m.cells), ("vertices", listJ ratsJ m.vertices),
         ("indices", listJ natsJ (indicesCode m.n)), ("iter", listJ ratsJ m.iter),
         ("indices_spec", .bool (indicesCode m.n == indicesF m.n))])
+  | "mesh_info_big" => some do
+      let m ← meshOfJson (← fld j "mesh")
+      let idxs ← listOf (listOf natOfJson) (← fld j "idxs")
+      let cs := m.cells
+      let vs := m.vertices
+      pure (Json.mkObj [("cell", ratsJ m.cell), ("len", .num (JsonNumber.fromNat m.len)),
+        ("ax_len", listJ natsJ [cs.map List.length, vs.map List.length]),
+        ("cells_at", listJ ratsJ (idxs.map fun i => tab m.ndim fun a => (cs.getD a []).getD (i.getD a 0) 0)),
+        ("verts_at", listJ ratsJ (idxs.map fun i => tab m.ndim fun a => (vs.getD a []).getD (i.getD a 0) 0))])
   | "index2point" => some do
       let m ← meshOfJson (← fld j "mesh"); let i ← ints j "index"
       pure (resJ ratsJ (m.index2point i))
